@@ -3,7 +3,7 @@
    the manual, the reference BER decoder with More/Fail, machines modelled on
    ber_decode_primitive and ber_check_tags); tied to the C by checks/c05.py. *)
 From Coq Require Import ZArith List Bool.
-From A1 Require Import Base.Bytes Leaf.BerTL Leaf.BerTLProofs Rt.Types Rt.Comb Rt.Der Rt.DerProofs Rt.Resume Rt.ResumeProofs Rt.Oer Rt.ResumeX Rt.ResumeXProofs.
+From A1 Require Import Base.Bytes Leaf.BerTL Leaf.BerTLProofs Rt.Types Rt.Comb Rt.Der Rt.DerProofs Rt.Resume Rt.ResumeProofs Rt.Oer Rt.ResumeX Rt.ResumeXProofs Rt.ResumeT Rt.ResumeTProofs.
 Import ListNotations.
 Local Open Scope Z_scope.
 
@@ -148,3 +148,52 @@ Theorem C05_oer_skips_prefix_wmore : forall cs p q, adds_ok cs -> adds_enc cs = 
   exists k bits', skips_step true (adds_bits cs) p = (MORE, k, bits') /\ (k <= length p)%nat.
 Proof. exact skips_prefix_wmore. Qed.
 Print Assumptions C05_oer_skips_prefix_wmore.
+
+(* ---- third layer (Rt/ResumeT.v): ber_check_tags with its tag_mode (-1 IMPLICIT in place, 0, +1 EXPLICIT in
+   place: what the member table says for a member that tags a REFERENCE) and last_tag_form (1, 0, -1) *)
+
+(* restart test on ctx->step (the code): coherent whatever the tag_mode, the demanded last form, the tags *)
+Theorem C05_chainm_coherent : forall mode ltf tags, coherent (chainm_step KStep mode ltf tags).
+Proof. exact chainm_coherent. Qed.
+Print Assumptions C05_chainm_coherent.
+
+(* hence every chunking ends like the one-shot call: code, octets consumed, and the context handed to the
+   caller: ctx->left = the last length, or minus the number of end-of-contents pairs still owed *)
+Theorem C05_chainm_chunk_independent : forall mode ltf tags input chunks,
+  chunking_of input chunks ->
+  feed0 (chainm_step KStep mode ltf tags) chain_ctx0 chunks = chainm_step KStep mode ltf tags chain_ctx0 input.
+Proof. exact chainm_chunk_independent. Qed.
+Print Assumptions C05_chainm_chunk_independent.
+
+(* the restart test written on tagno (= step - 1 for tag_mode +1): the same function for tag_mode 0 and -1 ... *)
+Theorem C05_chainm_tagno_agrees : forall mode ltf tags c w,
+  mode <> 1 -> chainm_step KTagno mode ltf tags c w = chainm_step KStep mode ltf tags c w.
+Proof. exact chainm_tagno_agrees. Qed.
+Print Assumptions C05_chainm_tagno_agrees.
+
+Theorem C05_chainm_tagno_coherent : forall mode ltf tags, mode <> 1 -> coherent (chainm_step KTagno mode ltf tags).
+Proof. exact chainm_tagno_coherent. Qed.
+Print Assumptions C05_chainm_tagno_coherent.
+
+(* ... and not chunk independent for tag_mode +1: a5 80 | 30 80 under `w [5] EXPLICIT Inner` *)
+Theorem C05_chainm_tagno_refuted :
+  exists tags input chunks, chunking_of input chunks /\
+    feed0 (chainm_step KTagno 1 1 tags) chain_ctx0 chunks <> chainm_step KTagno 1 1 tags chain_ctx0 input.
+Proof. exact chainm_tagno_refuted. Qed.
+Print Assumptions C05_chainm_tagno_refuted.
+
+(* tag_mode 0 with last_tag_form 1 is the machine of the first layer *)
+Theorem C05_chainm_mode0_is_chain : forall tags c w, chainm_step KStep 0 1 tags c w = chain_step tags c w.
+Proof. exact chainm_mode0_is_chain. Qed.
+Print Assumptions C05_chainm_mode0_is_chain.
+
+(* ber_decode_primitive for a member that tags a reference to a primitive type in place (ber_check_tags without a
+   restart context, tag_mode -1 / 0 / +1, any number of own tags): nothing consumed until the whole TLV chain is there *)
+Theorem C05_primm_coherent : forall mode tags, coherent (primm_step mode tags).
+Proof. exact primm_coherent. Qed.
+Print Assumptions C05_primm_coherent.
+
+Theorem C05_primm_chunk_independent : forall mode tags input chunks,
+  chunking_of input chunks -> feed0 (primm_step mode tags) None chunks = primm_step mode tags None input.
+Proof. exact primm_chunk_independent. Qed.
+Print Assumptions C05_primm_chunk_independent.
